@@ -42,6 +42,8 @@ def plan(tier, seed):
 
 
 class Run:
+    final = False
+
     def __init__(self, cfg):
         self.cfg = cfg
         self.names = ["A"]
@@ -320,6 +322,12 @@ def walk(case, observe=None):
     rng = simgen.mk_rng(case["seed"], case["idx"], 11)
     r = Run(case["cfg"])
     try:
+        for e in case.get("prefix") or ():
+            # a scripted beginning (skipped where not enabled), then the random walk
+            if tuple(e) in [tuple(x) for x in r.enabled()]:
+                r.do(tuple(e))
+                if observe:
+                    observe(r)
         for _ in range(case["len"]):
             en = r.enabled()
             if not en:
@@ -329,11 +337,22 @@ def walk(case, observe=None):
                 observe(r)
         r.w.executor.run_all()
         r.w.snapshot()
+        r.final = True  # quiescent and synced: every response delivered, the current bet table processed
         if observe:
             observe(r)
     finally:
         r.close()
     return r
+
+
+def exchange_truth(run):
+    """Per runner of the walk's strategy: (runner context, bets of the exchange's table).  Valid at run.final."""
+    st = run.w.strategies[0]
+    mine = [b for b in run.ex.bets.values() if (b["customerOrderRef"] or "")[:13] == st.name_hash]
+    by_sel = {}
+    for b in mine:
+        by_sel.setdefault((b["selectionId"], b["handicap"]), []).append(b)
+    return st, by_sel
 
 
 def run(case):
